@@ -470,3 +470,56 @@ func TestC15Concurrent(t *testing.T) {
 		})
 	}
 }
+
+// TestC15CacheChurn: thousands of unrelated ids between two resolutions of the same messages. A message with
+// hard-coded accounts (alice, staff), with root and with ids nobody knows is coalesced and resolved — through
+// the package's shared caches and through caches of its own — then 1500 (thorough: 20000) events with ids
+// never seen before are resolved, then the first messages again: the two results must be equal.
+func TestC15CacheChurn(t *testing.T) {
+	hardcode()
+	n := 1500
+	if hx.Thorough() {
+		n = 20000
+	}
+	line := func(seq int, uid, gid, auid int) []*auparse.AuditMessage {
+		m, err := auparse.ParseLogLine(fmt.Sprintf(`type=SYSCALL msg=audit(1700000000.000:%d): arch=c000003e syscall=2 success=yes exit=3 a0=1 a1=2 a2=3 a3=4 items=0 ppid=1 pid=2 auid=%d uid=%d gid=%d euid=%d suid=0 fsuid=%d egid=%d sgid=0 fsgid=%d tty=pts0 ses=1 comm="c" exe="/bin/c" key=(null)`, seq, auid, uid, gid, uid, uid, gid, gid))
+		if err != nil {
+			t.Fatalf("harness: %v", err)
+		}
+		return []*auparse.AuditMessage{m}
+	}
+	resolve := func(msgs []*auparse.AuditMessage, u, g *aucoalesce.EntityCache) evSnap {
+		ev, err := aucoalesce.CoalesceMessages(msgs)
+		if err != nil {
+			t.Fatalf("harness: %v", err)
+		}
+		if u != nil {
+			aucoalesce.ResolveIDsFromCaches(ev, u, g)
+		} else {
+			aucoalesce.ResolveIDs(ev)
+		}
+		return snapEvent(ev)
+	}
+	users, groups := aucoalesce.NewUserCache(time.Hour), aucoalesce.NewGroupCache(time.Hour)
+	subjects := [][]*auparse.AuditMessage{line(1, 1000, 1000, 0), line(2, 0, 0, 1000), line(3, 70004, 70013, 4000000001)}
+	var before, beforeOwn []evSnap
+	for _, s := range subjects {
+		before, beforeOwn = append(before, resolve(s, nil, nil)), append(beforeOwn, resolve(s, users, groups))
+	}
+	hC15.BeginLimit("TestC15", C15Case{}, 300*time.Second)
+	for i := 0; i < n; i++ {
+		msgs := line(100+i, 3000000+3*i, 3000001+3*i, 3000002+3*i)
+		resolve(msgs, nil, nil)
+		resolve(msgs, users, groups)
+		hC15.Eval()
+	}
+	hC15.End()
+	for i, s := range subjects {
+		for which, pair := range [][2]evSnap{{before[i], resolve(s, nil, nil)}, {beforeOwn[i], resolve(s, users, groups)}} {
+			if !eqSnap(pair[0], pair[1]) {
+				hC15.Fail(t, "TestC15CacheChurn", C15Case{}, "message %d resolved before and after %d events with ids never seen before (%s caches) differs:\n before %+v\n after  %+v", i, n, []string{"shared", "own"}[which], pair[0], pair[1])
+			}
+		}
+	}
+	hC15.Class("cache-churn")
+}
